@@ -221,7 +221,7 @@ def check_reduce_statuses():
     return None
 
 
-async def _real_run(phase, limit, failures):
+async def _real_run(phase, limit, failures, no_inputs=False):
     """one real workflow (injector -> schedule -> transfer -> execute) under the real RollbackFailureManager with `limit` retries; the
     given phase of its single job fails `failures` times in a row (soft errors: no data is lost).  Uses the repository's own failure
     injectors (tests/utils/workflow.py)."""
@@ -263,8 +263,8 @@ async def _real_run(phase, limit, failures):
         injector = translator.get_base_injector_step([config.name], "test_in", posixpath.join(posixpath.sep, "test_in"), workflow)
         await inject_tokens(token_list=[Token(100, recoverable=True)], in_port=injector.get_input_port("test_in"), context=context, save_input_token=False)
         translator.get_execute_pipeline(
-            command="lambda x : ('copy', 'primitive', x['test_in'].value)", deployment_names=[config.name],
-            input_ports={"test_in": injector.get_output_port("test_in")}, outputs={"test_out": "primitive"},
+            command="lambda x : ('copy', 'primitive', 5)" if no_inputs else "lambda x : ('copy', 'primitive', x['test_in'].value)", deployment_names=[config.name],
+            input_ports={} if no_inputs else {"test_in": injector.get_output_port("test_in")}, outputs={"test_out": "primitive"},
             step_name=posixpath.join(posixpath.sep, "J", "step"), workflow=workflow,
             failure_tags={"0": failures}, failure_step=phase, failure_type=tw.RecoveryTranslator.SOFT_ERROR)
         await workflow.save(context.database)
@@ -289,14 +289,16 @@ async def _real_run(phase, limit, failures):
 def check_real_runs(cases):
     """the statement on real runs: the failing phase is attempted at most `limit` times; fewer failures than the limit -> the workflow
     completes; as many or more -> the executor raises (it neither hangs nor returns as if nothing had happened)"""
-    for phase, limit, failures in cases:
+    for case in cases:
+        phase, limit, failures = case[:3]
+        no_inputs = len(case) > 3
         try:
-            outcome, attempts = asyncio.run(_real_run(phase, limit, failures))
+            outcome, attempts = asyncio.run(_real_run(phase, limit, failures, no_inputs))
         except Exception as e:  # noqa
             return {"unit": "real run", "failure": f"the run could not be set up or crashed: {type(e).__name__}: {e}", "phase": phase, "limit": limit, "failures": failures}
         want = "completed" if failures < limit else "WorkflowExecutionException"
         if outcome != want or attempts > limit or (outcome == "completed" and attempts != failures + 1):
-            return {"unit": "real run", "failure": "retry bound broken on a real run", "phase": phase, "max_retries": limit, "injected_failures": failures,
+            return {"unit": "real run", "failure": "retry bound broken on a real run", "phase": phase, "max_retries": limit, "injected_failures": failures, "step_without_inputs": no_inputs,
                     "outcome": outcome, "expected_outcome": want, "attempts_of_the_failing_phase": attempts}
     return None
 
@@ -304,9 +306,10 @@ def check_real_runs(cases):
 def real_run_cases(n):
     grid = [(ph, lim, f) for ph in ("execute", "transfer", "schedule") for lim in (1, 2, 3) for f in range(0, lim + 3)]
     if n >= len(grid):
-        return grid
+        return grid + [("execute", lim, f, "no inputs") for lim in (1, 2, 3) for f in range(0, lim + 3)]
     # always: exhaustion in every phase; then a random sample of the rest
-    must = [(ph, 2, 3) for ph in ("execute", "transfer", "schedule")]
+    # (a step WITHOUT input ports — a source step, a tool without inputs — has its own branch in ExecuteStep.run)
+    must = [(ph, 2, 3) for ph in ("execute", "transfer", "schedule")] + [("execute", 2, 3, "no inputs"), ("execute", 1, 1, "no inputs"), ("execute", 3, 1, "no inputs")]
     rest = [c for c in grid if c not in must]
     return must + rng.sample(rest, max(0, n - len(must)))
 
@@ -325,7 +328,7 @@ def replay(path):
 
 def crosscheck(n):
     bad = [x for x in (check_update(), check_get_request(), check_dummy(), check_wrapper(), check_handle_failure(), check_synchronize(), check_reduce_statuses()) if x]
-    cases = real_run_cases(6 if int(n) <= 100 else 60)
+    cases = real_run_cases(9 if int(n) <= 100 else 60)
     if not bad:
         bad = [x for x in (check_real_runs(cases),) if x]
     print(json.dumps({"inputs": 7 + len(cases), "native_contract_failures": len(bad), "samples": bad[:2]}))
